@@ -2245,7 +2245,12 @@ pub fn run(ctx: &mut Ctx, profile: Profile) -> &'static str {
     }
     id += 1;
     // configured parallelism 0 (a configuration error, not a query)
-    let zero = make_fixture(&root, id, &mut frng, "none_parallelism_0", vec![], Traversal::Distance, false, None, 0, true);
+    // a configured parallelism of 0 is refused when the application is built (fix): the public field is set afterwards,
+    // so that the chunking with `self.parallelism = 0` stays exercised
+    let zero = make_fixture(&root, id, &mut frng, "none_parallelism_0", vec![], Traversal::Distance, false, None, 1, true).map(|(mut f, p)| {
+        f.app.parallelism = 0;
+        (f, p)
+    });
     let find = |label: &str| fixtures.iter().position(|f| f.0.label == label);
 
     // ---- corpus: witnesses of repaired and of known defects ----
@@ -2707,7 +2712,21 @@ fn run_cfg_part(rng: &mut Rng, fx: &Fixture, key: &str, case_tag: usize) -> Opti
             8 => Some((json!(1), false)),
             _ => Some((Value::Null, false)),
         },
-        _ => match rng.below(22) {
+        _ => match rng.below(34) {
+            // serde's other shapes of an internally tagged enum: a sequence whose first element is the tag, and (nested
+            // only) the variant's index as the tag
+            22 => Some((json!(["none"]), true)),
+            23 => Some((json!(["none", 1, "x"]), false)),
+            24 => Some((json!(["file", work_file(&format!("sink_{}_seq.json", case_tag)), ["json", true], null]), true)),
+            25 => Some((json!(["file", work_file(&format!("sink_{}_seq2.json", case_tag)), {"type": "json", "newline_delimited": true}, 3]), true)),
+            26 => Some((json!({"type": "file", "filename": work_file(&format!("sink_{}_seq3.json", case_tag)), "format": ["json", false]}), true)),
+            27 => Some((json!({"type": "file", "filename": work_file(&format!("sink_{}_idx.json", case_tag)), "format": {"type": 0, "newline_delimited": true}}), true)),
+            28 => Some((json!({"type": "file", "filename": work_file(&format!("sink_{}_idx2.json", case_tag)), "format": [0, true]}), true)),
+            29 => Some((json!({"type": 0}), false)),
+            30 => Some((json!([1]), false)),
+            31 => Some((json!(["file", work_file("sink_short_seq.json"), ["json", true]]), false)),
+            32 => Some((json!(["file", DEV_FULL, ["json", true], null]), true)),
+            33 => Some((json!({"type": "file", "filename": work_file("sink_badidx.json"), "format": {"type": 7, "newline_delimited": true}}), false)),
             0..=4 => None,
             5 => Some((json!({"type": "none"}), true)),
             6 => Some((json!({"type": "none", "filename": 7}), true)),
@@ -2739,7 +2758,13 @@ fn sink_env(name: &str) -> (bool, bool) {
 }
 
 fn sink_file_names(cfg: &Option<Value>) -> Vec<String> {
-    cfg.as_ref().and_then(|c| c.get("response_output_policy")).and_then(|p| p.get("filename")).and_then(|f| f.as_str()).map(|s| vec![s.to_string()]).unwrap_or_default()
+    let Some(p) = cfg.as_ref().and_then(|c| c.get("response_output_policy")) else { return vec![] };
+    // object shape: the `filename` entry; sequence shape `["file", <filename>, …]`: the second element
+    let name = match p {
+        Value::Array(a) if a.first() == Some(&json!("file")) => a.get(1).and_then(|f| f.as_str()),
+        other => other.get("filename").and_then(|f| f.as_str()),
+    };
+    name.map(|s| vec![s.to_string()]).unwrap_or_default()
 }
 
 #[allow(clippy::too_many_arguments)]
@@ -3042,7 +3067,8 @@ fn lbuild_case(ctx: &mut Ctx, fx_fmt_nums: &[f64], params: &Value, must: Option<
         json!(5),
     ];
     let r = std::panic::catch_unwind(std::panic::AssertUnwindSafe(|| LoadBalancerBuilder {}.build(params)));
-    let haversine = params.get("weight_heuristic").and_then(|h| h.get("type")).and_then(|t| t.as_str()) == Some("haversine");
+    let wh = params.get("weight_heuristic");
+    let haversine = wh.and_then(|h| h.get("type")).and_then(|t| t.as_str()) == Some("haversine") || wh.and_then(|h| h.as_array()).and_then(|a| a.first()).and_then(|t| t.as_str()) == Some("haversine");
     let line = match &r {
         Err(_) => "panic".to_string(),
         Ok(Err(e)) => format!("err {}", builder_kind(e)),
@@ -3207,6 +3233,26 @@ fn builder_streams(ctx: &mut Ctx, tag: u64) {
         (json!({"type": "load_balancer", "weight_heuristic": 3}), bad),
         (json!({"type": "load_balancer"}), bad),
         (json!("load_balancer"), bad),
+        // serde's sequence shape and (nested) index tags of the internally tagged enums
+        (json!({"type": "load_balancer", "weight_heuristic": ["haversine"]}), ok),
+        (json!({"type": "load_balancer", "weight_heuristic": ["haversine", 1]}), bad),
+        (json!({"type": "load_balancer", "weight_heuristic": {"type": 0}}), bad),
+        (json!({"type": "load_balancer", "weight_heuristic": [0]}), bad),
+        (json!({"type": "load_balancer", "weight_heuristic": {"type": "custom", "custom_weight_type": {"type": 0, "column_name": "w"}}}), ok),
+        (json!({"type": "load_balancer", "weight_heuristic": {"type": "custom", "custom_weight_type": {"type": 1, "column_name": "cls", "mapping": {"a": 1, "b": 5.5}}}}), ok),
+        (json!({"type": "load_balancer", "weight_heuristic": {"type": "custom", "custom_weight_type": {"type": 2}}}), bad),
+        (json!({"type": "load_balancer", "weight_heuristic": {"type": "custom", "custom_weight_type": {"type": 0.0, "column_name": "w"}}}), bad),
+        (json!({"type": "load_balancer", "weight_heuristic": ["custom", ["numeric", "w"]]}), ok),
+        (json!({"type": "load_balancer", "weight_heuristic": ["custom", [0, "w"]]}), ok),
+        (json!({"type": "load_balancer", "weight_heuristic": ["custom"]}), bad),
+        (json!({"type": "load_balancer", "weight_heuristic": {"type": "custom", "custom_weight_type": ["numeric", "w"]}}), ok),
+        (json!({"type": "load_balancer", "weight_heuristic": {"type": "custom", "custom_weight_type": ["numeric", null]}}), ok),
+        (json!({"type": "load_balancer", "weight_heuristic": {"type": "custom", "custom_weight_type": ["numeric"]}}), bad),
+        (json!({"type": "load_balancer", "weight_heuristic": {"type": "custom", "custom_weight_type": ["numeric", "w", 1]}}), bad),
+        (json!({"type": "load_balancer", "weight_heuristic": {"type": "custom", "custom_weight_type": ["categorical", "cls", {"a": 1.0}, 2.0]}}), ok),
+        (json!({"type": "load_balancer", "weight_heuristic": {"type": "custom", "custom_weight_type": ["categorical", "cls", {"a": 1.0}, null]}}), ok),
+        (json!({"type": "load_balancer", "weight_heuristic": {"type": "custom", "custom_weight_type": ["categorical", "cls", {"a": 1.0}]}}), bad),
+        (json!({"type": "load_balancer", "weight_heuristic": {"type": "custom", "custom_weight_type": ["categorical", null, {}, null]}}), ok),
     ] {
         lbuild_case(ctx, &nums, &p, must, "lb_builder_corpus");
     }
@@ -3271,7 +3317,26 @@ fn builder_streams(ctx: &mut Ctx, tag: u64) {
                 _ => {}
             }
         }
-        let wh = match rng.below(8) {
+        // serde's other shapes, when every positional field is there
+        let mut cw_value = Value::Object(cw.clone());
+        match (ty, rng.below(4)) {
+            ("numeric", 0) if cw.get("column_name").map(|c| c.is_string() || c.is_null()).unwrap_or(false) => {
+                cw_value = json!(["numeric", cw["column_name"].clone()]);
+            }
+            ("categorical", 0) if cw.contains_key("mapping") && cw.contains_key("column_name") && cw.contains_key("default") => {
+                cw_value = json!(["categorical", cw["column_name"].clone(), cw["mapping"].clone(), cw["default"].clone()]);
+            }
+            ("numeric", 1) | ("categorical", 1) => {
+                if let Value::Object(m) = &mut cw_value {
+                    m.insert("type".into(), json!(if ty == "numeric" { 0 } else { 1 }));
+                }
+            }
+            _ => {}
+        }
+        let wh = match rng.below(9) {
+            8 => {
+                if rng.chance(1, 2) { json!(["haversine"]) } else { json!(["custom", cw_value.clone()]) }
+            }
             0 => json!({"type": "haversine"}),
             1 => {
                 must = false;
@@ -3281,9 +3346,9 @@ fn builder_streams(ctx: &mut Ctx, tag: u64) {
                 must = false;
                 junk(&mut rng)
             }
-            _ => json!({"type": "custom", "custom_weight_type": cw}),
+            _ => json!({"type": "custom", "custom_weight_type": cw_value}),
         };
-        let is_hav = wh == json!({"type": "haversine"});
+        let is_hav = wh == json!({"type": "haversine"}) || wh == json!(["haversine"]);
         let p = json!({"type": "load_balancer", "weight_heuristic": wh});
         lbuild_case(ctx, &nums, &p, Some(must || is_hav), "lb_builder_generated");
     }
@@ -3412,6 +3477,8 @@ struct Mutation {
     replace: Option<(String, String)>,
     /// must the build fail
     must: Option<bool>,
+    /// the parallelism the built application must have (what the configuration library makes of the value)
+    par: Option<u64>,
 }
 
 fn apply_mutation(base: &str, m: &Mutation) -> String {
@@ -3428,10 +3495,11 @@ fn apply_mutation(base: &str, m: &Mutation) -> String {
 }
 
 fn config_mutations(d: &str) -> Vec<Mutation> {
-    let rep = |name: &'static str, stage: &'static str, from: &str, to: &str, must: Option<bool>| Mutation { name, stage, append: String::new(), replace: Some((from.to_string(), to.to_string())), must };
-    let app = |name: &'static str, stage: &'static str, text: String, must: Option<bool>| Mutation { name, stage, append: text, replace: None, must };
+    let rep = |name: &'static str, stage: &'static str, from: &str, to: &str, must: Option<bool>| Mutation { name, stage, append: String::new(), replace: Some((from.to_string(), to.to_string())), must, par: None };
+    let app = |name: &'static str, stage: &'static str, text: String, must: Option<bool>| Mutation { name, stage, append: text, replace: None, must, par: None };
     let t = Some(true);
     let f = Some(false);
+    let par_ok = |name: &'static str, to: &str, par: u64| Mutation { name, stage: "", append: String::new(), replace: Some(("parallelism = ".to_string(), to.to_string())), must: Some(false), par: Some(par) };
     let plug = "input_plugins = [";
     vec![
         app("valid", "", String::new(), f),
@@ -3468,8 +3536,21 @@ fn config_mutations(d: &str) -> Vec<Mutation> {
         rep("traversal_plugin_bad_format", "output_plugins", "route = \"edge_id\"", "route = \"hologram\"", t),
         rep("parallelism_string", "parallelism", "parallelism = ", "parallelism = \"many\" # ", t),
         rep("parallelism_negative", "parallelism", "parallelism = ", "parallelism = -2 # ", t),
-        rep("parallelism_float", "", "parallelism = ", "parallelism = 2.5 # ", None),
-        rep("parallelism_numeric_string", "", "parallelism = ", "parallelism = \"3\" # ", None),
+        // what the configuration library (config 0.14) makes of a value that is not an unsigned integer: fractions are
+        // rounded, numeric strings parsed, booleans counted, non-finite values saturated; a result of 0 is refused
+        par_ok("parallelism_float_2_5", "parallelism = 2.5 # ", 3),
+        par_ok("parallelism_float_2_4", "parallelism = 2.4 # ", 2),
+        par_ok("parallelism_numeric_string", "parallelism = \"3\" # ", 3),
+        par_ok("parallelism_true", "parallelism = true # ", 1),
+        par_ok("parallelism_inf", "parallelism = inf # ", u64::MAX),
+        par_ok("parallelism_1e30", "parallelism = 1e30 # ", u64::MAX),
+        rep("parallelism_zero", "parallelism", "parallelism = ", "parallelism = 0 # ", t),
+        rep("parallelism_false", "parallelism", "parallelism = ", "parallelism = false # ", t),
+        rep("parallelism_nan", "parallelism", "parallelism = ", "parallelism = nan # ", t),
+        rep("parallelism_0_4", "parallelism", "parallelism = ", "parallelism = 0.4 # ", t),
+        rep("parallelism_minus_zero", "parallelism", "parallelism = ", "parallelism = -0 # ", t),
+        rep("parallelism_list", "parallelism", "parallelism = ", "parallelism = [2] # ", t),
+        rep("parallelism_padded_string", "parallelism", "parallelism = ", "parallelism = \" 3\" # ", t),
         rep("orientation_unknown", "search_orientation", "search_orientation = \"vertex\"", "search_orientation = \"diagonal\"", t),
         rep("orientation_wrong_type", "search_orientation", "search_orientation = \"vertex\"", "search_orientation = 3", t),
         rep("persistence_unknown", "response_persistence_policy", "response_persistence_policy = \"persist_response_in_memory\"", "response_persistence_policy = \"forget_everything\"", t),
@@ -3571,6 +3652,11 @@ fn config_stream(ctx: &mut Ctx, root: &Path, tag: u64) {
             ctx.emit(idx, stage_line(&failing), impl_line);
             ctx.count(&format!("config_{}", m.name));
             config_oracle(ctx, idx, m.name, m.must, &built, &path_built);
+            if let (Some(want), Some(got)) = (m.par, built.strip_prefix("ok ")) {
+                if got.parse::<u64>().ok() != Some(want) {
+                    ctx.fail(idx, "config/parallelism-coerced", format!("`{}`: the application was built with parallelism {}, expected {}", m.name, got, want));
+                }
+            }
             if built.starts_with("err") {
                 ctx.nontrivial(&format!("cfg|{}", m.name));
             }
